@@ -686,4 +686,4 @@ mod tests {
 
 #[cfg(kani)]
 #[path = "/verif/harness/may/sync_rwlock.rs"]
-mod verif_kani;
+pub(crate) mod verif_kani;
